@@ -1044,3 +1044,66 @@ Example ex_delta :
   delta_seconds 0 1 12 0 0 = 129600 /\ remove_time_of_delta 1000000 0 1 12 0 0 = 870400 /\
   4 * (1000000 - (604800 * 0 + 86400 * 1 + 3600 * 12 + 60 * 0 + 0)) < ((4 * (1000000 - 108000)) / 4) * 4.
 Proof. repeat split; vm_compute; reflexivity. Qed.
+
+(* ------------------------------------------------------------------ the converse through C11's descent
+   A stored tile of a seeded level that is expired (or remove_all), addressed without dimensions, whose grid tile
+   contains a point (px, py) that at every level k <= l lies in a tile of the grid whose meta tile the coverage does
+   not classify as NONE, and lies 1/10 pixel (level 0) inside the start rectangle, is removed when the processed
+   meta tiles are those the modelled TileWalker descent (run from the start, no saved progress) hands over.  Premises
+   are C11's walk_complete_nested (pyramid whose resolutions are integer multiples of the next level's); the tile
+   manager's meta size function is the one of the modelled meta grid. *)
+Local Open Scope Z_scope.
+Lemma main_tile_point_meta g msx msy msize px py x y l :
+  Grid.tile g px py l = (x, y) -> msize l = Seed.meta_size g msx msy l ->
+  Seed_proofs.point_meta g msx msy px py l = main_tile msize (x, y, l).
+Proof.
+  intros Ht Hm. unfold Seed_proofs.point_meta, main_tile. rewrite Ht, Hm.
+  destruct (Seed.meta_size g msx msy l); reflexivity.
+Qed.
+
+Lemma seed_walk_inside_coverage_removed_l b q msize t g msx msy cov skipk levels root c e dim l x y px py :
+  strategy b t = SWalk -> e_place e = PTile dim l x y -> dim_addressed b dim = true ->
+  t_all t || is_stale b q (t_T t) e = true ->
+  Seed_proofs.geo_wf g msx msy -> Seed_proofs.levels_wf g levels -> In l levels ->
+  msize l = Seed.meta_size g msx msy l -> Grid.tile g px py l = (x, y) ->
+  (forall k, 0 <= k <= l ->
+     Grid.valid_level g k = true /\ Seed_proofs.point_in_grid g px py k /\
+     cov (Seed.meta_bbox g msx msy (Seed_proofs.point_meta g msx msy px py k)) <> 0) ->
+  Seed_proofs.inset root (Grid.res_at g 0 / 10) px py ->
+  (forall k, 0 <= k < l -> exists f, 0 < f /\ Grid.res_at g k = f * Grid.res_at g (k + 1)) ->
+  ~ In e (cleanup_task b q msize t (Seed.procs (Seed.geo_walk g msx msy cov skipk levels root None)) c).
+Proof.
+  intros S P Hd Hst Hwf Hl HL Hms Htile Hk Hroot Hnest Hin.
+  apply cleanup_task_In in Hin. destruct Hin as [_ R].
+  rewrite (removed_walk_closed b q msize t _ e dim l x y S P) in R.
+  rewrite Hd, Hst in R.
+  assert (M : mem_coord (main_tile msize (x, y, l))
+                (Seed.procs (Seed.geo_walk g msx msy cov skipk levels root None)) = true).
+  { apply mem_coord_In. rewrite <- (main_tile_point_meta g msx msy msize px py x y l Htile Hms).
+    apply Seed_proofs.walk_complete_nested_lemma; assumption. }
+  rewrite M in R. discriminate R.
+Qed.
+
+(* non-vacuity: C11's example grid and coverage, meta size 1, the point (5120, 3000) on a tile edge of levels 1, 2;
+   it lies in tile (2, 1) of level 2; an entry stored there 100 ticks before the remove time is stale *)
+Example ex_seed_walk_inside :
+  Grid.tile Seed_proofs.ex_grid 5120 3000 2 = (2, 1) /\
+  (fun _ : Z => (1, 1)) 2 = Seed.meta_size Seed_proofs.ex_grid 1 1 2 /\
+  strategy (BFile LQuadkey) (mkTask [0; 1; 2] 400 false false false) = SWalk /\
+  is_stale (BFile LQuadkey) 4 400 (mkEntry (PTile 0 2 2 1) 300 false None) = true /\
+  ~ In (mkEntry (PTile 0 2 2 1) 300 false None)
+       (cleanup_task (BFile LQuadkey) 4 (fun _ => (1, 1)) (mkTask [0; 1; 2] 400 false false false)
+          (Seed.procs (Seed.geo_walk Seed_proofs.ex_grid 1 1 (Seed.cov_bboxes [Seed_proofs.ex_cov]) 0 [0; 1; 2]
+                         Seed_proofs.ex_cov None))
+          [mkEntry (PTile 0 2 2 1) 300 false None]).
+Proof.
+  split; [vm_compute; reflexivity|]. split; [vm_compute; reflexivity|]. split; [reflexivity|].
+  split; [vm_compute; reflexivity|].
+  destruct Seed_proofs.ex_nested_premises as [Hk [Hroot [Hnest _]]].
+  apply (seed_walk_inside_coverage_removed_l (BFile LQuadkey) 4 (fun _ => (1, 1)) _ Seed_proofs.ex_grid 1 1
+           (Seed.cov_bboxes [Seed_proofs.ex_cov]) 0 [0; 1; 2] Seed_proofs.ex_cov _ _ 0 2 2 1 5120 3000);
+    try reflexivity; try assumption.
+  - exact (proj1 Seed_proofs.ex_geo_wf).
+  - exact (proj2 Seed_proofs.ex_geo_wf).
+  - right; right; left; reflexivity.
+Qed.
